@@ -114,7 +114,27 @@ SeedAxiom == {Node("NOT", <<Node("EQUAL", <<Glob("A1"), Glob("A1")>>)>>), Node("
         \cup {Node(o, <<x, Glob("A1")>>) : o \in SetBinLike \cup Preds, x \in {Glob("X1"), IntLit(1)}}
         \cup {Node(o, <<Glob("A1")>>) : o \in Un} \cup {Node("ENUM", <<Glob("A1")>>), Call("F1", <<Glob("A1")>>)}
         \cup {Node("FORALL", <<La, Glob("A1"), Node("EQUAL", <<La, La>>)>>), Node("DECLARATIVE", <<La, Glob("X1"), Node("IN", <<La, Glob("A1")>>)>>)}
-Seeds == UNION {SeedFilter, SeedRec, SeedImp, SeedBind, SeedCall, SeedScope, SeedAxiom}
+\* operands in a lazy representation (power set / product) that does NOT contain every element of the other operand
+Pr1S1 == Idx("BIGPR", <<1>>, <<Glob("S1")>>)
+Pr2S1 == Idx("BIGPR", <<2>>, <<Glob("S1")>>)
+Diag == Node("DECLARATIVE", <<La, Glob("X1"), Node("IN", <<Node("TUPLE", <<La, La>>), Glob("S1")>>)>>)     \* {a in X1 | (a,a) in S1}
+LazyPairs == {<<Node("BOOLEAN", <<Pr1S1>>), Node("ENUM", <<Glob("X1")>>)>>, <<Node("BOOLEAN", <<Pr1S1>>), Glob("S2")>>,
+              <<Node("BOOLEAN", <<Diag>>), Glob("S2")>>, <<Node("BOOLEAN", <<Glob("X1")>>), Node("BOOLEAN", <<Pr1S1>>)>>,
+              <<Node("DECART", <<Pr1S1, Pr2S1>>), Glob("S1")>>, <<Node("DECART", <<Diag, Glob("X1")>>), Glob("S1")>>,
+              <<X1xX1, Glob("S1")>>, <<Node("DECART", <<Pr1S1, Pr1S1>>), Node("DECART", <<Pr2S1, Diag>>)>>,
+              <<Node("BOOLEAN", <<Node("SET_MINUS", <<Glob("X1"), Glob("X1")>>)>>), Node("ENUM", <<Glob("X1")>>)>>}
+SeedLazy == {Node(o, <<p[1], p[2]>>) : o \in SetBin \cup SubPred \cup EqPred, p \in LazyPairs}
+       \cup {Node(o, <<p[2], p[1]>>) : o \in SetBin \cup SubPred \cup EqPred, p \in LazyPairs}
+       \cup {Node("CARD", <<Node(o, <<p[1], p[2]>>)>>) : o \in SetBin, p \in LazyPairs}
+       \cup {Node("IN", <<Glob("X1"), Node("UNION", <<p[1], p[2]>>)>>) : p \in LazyPairs}
+\* nested calls with proper subsets as arguments (a captured or overwritten bound variable changes the value)
+SubArgs == {Glob("X1"), Diag, Pr1S1}
+SeedNested == {Call("F4", <<x, Call("F4", <<y, z>>)>>) : x \in SubArgs, y \in SubArgs, z \in SubArgs}
+         \cup {Call("F4", <<Call("F4", <<y, z>>), x>>) : x \in SubArgs, y \in SubArgs, z \in SubArgs}
+         \cup {Call("F3", <<Call("F4", <<x, Call("F3", <<y>>)>>)>>) : x \in SubArgs, y \in SubArgs}
+         \cup {Call("F4", <<Call("F3", <<x>>), Call("F3", <<y>>)>>) : x \in SubArgs, y \in SubArgs}
+         \cup {Node("DECLARATIVE", <<La, x, Node("IN", <<La, Call("F4", <<y, Call("F3", <<x>>)>>)>>)>>) : x \in SubArgs, y \in SubArgs}
+Seeds == UNION {SeedFilter, SeedRec, SeedImp, SeedBind, SeedCall, SeedScope, SeedAxiom, SeedLazy, SeedNested}
 
 NoLoc == [x \in {} |-> TAny]
 NoVal == [x \in {} |-> 0]
